@@ -1,4 +1,4 @@
-//! `gen N [delay_ms]`: writes exactly N bytes of numbered 8-byte lines ("0000001\n"...) to stdout,
+//! `gen N [delay_ms] [u]`: writes exactly N bytes of numbered 8-byte lines ("0000001\n"...) to stdout,
 //! optionally sleeping delay_ms before starting. Exits 0; dies of SIGPIPE like any filter.
 use std::io::Write;
 fn main() {
@@ -12,6 +12,28 @@ fn main() {
         std::thread::sleep(std::time::Duration::from_millis(ms));
     }
     let mut out = std::io::BufWriter::with_capacity(1 << 16, std::io::stdout().lock());
+    if a.get(3).map(String::as_str) == Some("u") {
+        // multi-byte payload: "x" then 2-byte characters, written in 64 KiB slices that ignore character
+        // boundaries (like cat does), so that every slice boundary falls inside a character
+        let mut data = Vec::with_capacity(n + 2);
+        if n > 0 {
+            data.push(b'x');
+        }
+        while data.len() + 2 <= n {
+            data.extend_from_slice("é".as_bytes());
+        }
+        if data.len() < n {
+            data.push(b'y');
+        }
+        drop(out);
+        let mut raw = std::io::stdout().lock();
+        for chunk in data.chunks(1 << 16) {
+            if raw.write_all(chunk).is_err() || raw.flush().is_err() {
+                std::process::exit(141);
+            }
+        }
+        return;
+    }
     let mut written = 0usize;
     let mut k = 1u64;
     while written < n {
